@@ -15,3 +15,22 @@ def search(ctx, broken):
     from harness import c12
     return _law_search(ctx, broken) + [dict(f, key="equal:" + f["key"]) for f in c12.search(ctx, broken)]
 FINDINGS_TARGETS = ["VectorModel.Findings.C01"]
+
+
+def correspondence(ctx):
+    """C01 through the glue of the array backends: the same vectors stored in every coordinate system give the same scalars and
+    vector results with the same Cartesian components on NumPy and Awkward arrays (float64), compared with Cartesian storage"""
+    from harness import backends
+    from harness import common as C
+    bad, st = backends.storage_independence_lattice(ctx)
+    seen, fails = set(), []
+    for a, b, k in bad:
+        if k not in seen:
+            seen.add(k)
+            fails.append({"key": k, "what": f"{a}: {b}"[:400], "code": (
+                "import sys; sys.path.insert(0, %r); sys.path.insert(0, %r)\nfrom harness import backends as Bk\n"
+                "class X: seed=%d; tier=%r\nbad, _ = Bk.storage_independence_lattice(X)\nhit=[b for b in bad if b[2]==%r]\n"
+                "assert not hit, hit[0][0] + ' :: ' + hit[0][1]\n" % (C.VERIF, C.VERIF + "/tools", ctx.seed, ctx.tier, k))})
+    st["traces_validated_against_impl"] = st["storage_independence_calls"]
+    return {"ok": not bad, "disagreements": [f"{a} :: {b}"[:300] for a, b, _ in bad[:10]], "failing_inputs": fails[:5], "stats": st,
+            "samples": [{"lattice": "storage independence on NumPy / Awkward arrays", "calls": st["storage_independence_calls"]}]}
